@@ -966,12 +966,111 @@ func short(s string) string {
 	return s
 }
 
+// scenarioEngine: the real engine with the http/scenario gun writing through the real phout, against
+// a target that makes every fifth answer to step b fail its assertion. The target counts what it
+// received per step; the output must hold exactly one well-formed line per request received —
+// no step twice, none missing — and each line's status must be the one the target sent.
+func scenarioEngine(res *vkit.Result, instances, shots int) {
+	c := map[string]any{"layer": "engine+http/scenario gun", "instances": instances, "shots": shots}
+	var hitsA, hitsB atomic.Int64
+	srv := &http.Server{Handler: http.HandlerFunc(func(w http.ResponseWriter, r *http.Request) {
+		switch r.URL.Path {
+		case "/a":
+			hitsA.Add(1)
+			_, _ = w.Write([]byte("ok a"))
+		case "/b":
+			if hitsB.Add(1)%5 == 0 {
+				w.WriteHeader(201)
+				_, _ = w.Write([]byte("nope"))
+				return
+			}
+			_, _ = w.Write([]byte("ok b"))
+		}
+	})}
+	ln, err := net.Listen("tcp", "127.0.0.1:0")
+	if err != nil {
+		res.Inconclusive(true, "listen: %v", err)
+		return
+	}
+	go func() { _ = srv.Serve(ln) }()
+	defer srv.Close()
+	yaml := `requests:
+  - name: "a"
+    method: "GET"
+    uri: "/a"
+    headers: {}
+  - name: "b"
+    method: "GET"
+    uri: "/b"
+    headers: {}
+    postprocessors:
+      - type: "assert/response"
+        body: ["ok"]
+        status_code: 200
+  - name: "c"
+    method: "GET"
+    uri: "/a"
+    headers: {}
+scenarios:
+  - name: "s"
+    weight: 1
+    min_waiting_time: 0
+    requests: ["a", "b", "c"]
+`
+	sp := tmpName(".yaml")
+	_ = vkit.WriteMemAt(sp, []byte(yaml))
+	defer vkit.RemoveMem(sp)
+	dest := tmpName(".phout")
+	defer vkit.RemoveMem(dest)
+	ec, err := vkit.DecodePools(map[string]any{"pools": []any{map[string]any{"id": "p",
+		"ammo":   map[string]any{"type": "http/scenario", "file": sp, "limit": shots},
+		"result": map[string]any{"type": "phout", "destination": dest, "id": true},
+		"gun":    map[string]any{"type": "http/scenario", "target": ln.Addr().String()},
+		"rps":    map[string]any{"type": "const", "ops": 2000, "duration": "60s"}, "startup": map[string]any{"type": "once", "times": instances}}}})
+	if err != nil {
+		res.Inconclusive(true, "scenario pool rejected: %v", err)
+		return
+	}
+	rr := vkit.RunEngine(ec, nil, 120*time.Second)
+	if rr.Err != nil || rr.Hang || rr.WaitHang {
+		res.Violate("C06/scenario-engine/run", fmt.Sprintf("run: err=%v hang=%v", rr.Err, rr.Hang || rr.WaitHang), c)
+		return
+	}
+	data, _ := afero.ReadFile(vkit.Fs(), dest)
+	recs, bad := parsePhout(data)
+	if bad != "" {
+		res.Violate("C06/scenario-engine/malformed", bad, c)
+		return
+	}
+	lines := map[string]int{}
+	failedB := 0
+	for _, r := range recs {
+		step := strings.SplitN(strings.SplitN(r.Tag, "#", 2)[0], "|", 2)[0]
+		lines[step]++
+		if step == "s.b" && r.Fields[9] != 200 {
+			failedB++
+		}
+	}
+	a, b := int(hitsA.Load()), int(hitsB.Load())
+	// steps a and c both fetch /a
+	if lines["s.a"]+lines["s.c"] != a || lines["s.b"] != b || len(recs) != a+b {
+		res.Violate("C06/scenario-engine/lines-vs-requests", fmt.Sprintf("the target received %d requests to /a and %d to /b; the output has %d lines: %v", a, b, len(recs), lines), c)
+	}
+	if failedB != b/5 {
+		res.Violate("C06/scenario-engine/status", fmt.Sprintf("%d answers to step b carried status 201; %d lines of step b carry another status than 200", b/5, failedB), c)
+	}
+	res.Count("scenario_engine_lines", int64(len(recs)))
+	res.Eval(vkit.JSON(c), len(recs) > instances)
+}
+
 func main() {
 	vkit.Fs()
 	res := vkit.NewResult("layer 1: seeded (goroutines, samples, queue size, buffer size, flush interval, cancel delay after the last Report, id on/off, slow sink) histories of Report calls against the real phout and jsonlines aggregators, output judged by an independent strict parser; layer 2: real engine + phout ending normally or cancelled after k reports; layer 3: real pandora binary stopped by SIGINT/SIGTERM at seeded instants. distinct = distinct case parameters; non-trivial = at least one report (process: more requests answered than instances)")
 	rng := vkit.Rand("c06")
 	cancelUs := []int{-1, 0, 0, 20, 200, 2000, 20000}
 	emptyRun(res)
+	scenarioEngine(res, 4, 200)
+	scenarioEngine(res, 1, 40)
 	// regression seeds first
 	phoutOnce(res, phoutCase{G: 4, K: 50, Queue: 8, WithID: true, CancelUs: 0, Seed: 11})
 	phoutOnce(res, phoutCase{G: 1, K: 1, Queue: 1, WithID: false, CancelUs: 0, Seed: 12})
